@@ -17,8 +17,24 @@ type SwComponents[I ISwComponent] struct {
 	values []I // nolint:structcheck
 }
 
+// isNilComponent reports whether sc is nil or holds a nil pointer (which is
+// what decoding a null array element yields).
+func isNilComponent(sc ISwComponent) bool {
+	if sc == nil {
+		return true
+	}
+
+	v := reflect.ValueOf(sc)
+
+	return v.Kind() == reflect.Pointer && v.IsNil()
+}
+
 func (o SwComponents[I]) Validate() error {
 	for i, sc := range o.values {
+		if isNilComponent(sc) {
+			return fmt.Errorf("failed at index %d: %w: nil software component", i, ErrWrongSyntax)
+		}
+
 		if err := sc.Validate(); err != nil {
 			return fmt.Errorf("failed at index %d: %w", i, err)
 		}
@@ -31,6 +47,10 @@ func (o SwComponents[I]) Values() ([]ISwComponent, error) {
 	ret := make([]ISwComponent, len(o.values))
 
 	for i, sc := range o.values {
+		if isNilComponent(sc) {
+			return nil, fmt.Errorf("failed at index %d: %w: nil software component", i, ErrWrongSyntax)
+		}
+
 		if err := sc.Validate(); err != nil {
 			return nil, fmt.Errorf("failed at index %d: %w", i, err)
 		}
@@ -87,6 +107,10 @@ func validateAndConvert[I ISwComponent](vals []ISwComponent) ([]I, error) {
 	ret := make([]I, len(vals))
 
 	for i, sc := range vals {
+		if isNilComponent(sc) {
+			return nil, fmt.Errorf("failed at index %d: %w: nil software component", i, ErrWrongSyntax)
+		}
+
 		if err := sc.Validate(); err != nil {
 			return nil, fmt.Errorf("failed at index %d: %w", i, err)
 		}
